@@ -262,6 +262,105 @@ static void case_big(const args_t *a, long c, rng_t *r)
 }
 
 /* ---- decoder vs sample files vs real reader */
+/* ------------------------------------------------------------------ compressed data blocks larger than the library's own writer can produce (thorough, -O2 build):
+ * zstd with a decompressed size above INT_MAX, zlib inflating to more than 2^32 bytes (64-bit restart array).  Compressed directly with libzstd / zlib. */
+#include <zlib.h>
+#include <zstd.h>
+static void case_bigz(const args_t *a, long c, rng_t *r)
+{
+	(void)r;
+	g_prop = "C11";
+	const int kind = (int)(c % 2);                         /* 0 zstd, 1 zlib */
+	const int NE = kind == 0 ? 2 : 6;
+	const uint64_t VL[6] = {kind == 0 ? (5ULL << 28) : (1100ULL << 20), kind == 0 ? (1ULL << 30) : (1100ULL << 20) + 1, (1100ULL << 20) + 2, (1100ULL << 20) + 3, (1100ULL << 20) + 4, (1100ULL << 20) + 5};
+	uint64_t ent_off[6], cur = 0;
+	for (int i = 0; i < NE; i++) { ent_off[i] = cur; uint8_t t[16]; cur += rd_varint_put(t, 0) + rd_varint_put(t, 2) + rd_varint_put(t, VL[i]) + 2 + VL[i]; }
+	const uint64_t entries_end = cur; const int rw = entries_end > UINT32_MAX ? 8 : 4;
+	const uint64_t raw_len = entries_end + (uint64_t)rw * NE + 4;
+	uint8_t *raw = calloc(1, raw_len);
+	if (!raw) { inconclusive("cannot allocate %" PRIu64 " bytes", raw_len); return; }
+	for (int i = 0; i < NE; i++) {
+		uint8_t *p = raw + ent_off[i]; p += rd_varint_put(p, 0); p += rd_varint_put(p, 2); p += rd_varint_put(p, VL[i]);
+		p[0] = 'k'; p[1] = (uint8_t)('a' + i); p += 2;
+		p[0] = (uint8_t)(0x11 * (i + 1)); p[VL[i] - 1] = (uint8_t)(0xA0 + i);     /* markers at both ends of the value */
+		if (rw == 8) rd_put64(raw + entries_end + 8 * i, ent_off[i]); else rd_put32(raw + entries_end + 4 * i, (uint32_t)ent_off[i]);
+	}
+	rd_put32(raw + entries_end + (uint64_t)rw * NE, (uint32_t)NE);
+	/* zlib: 40 MiB of incompressible filler inside the first value, so that the compressed size c is about 40 MiB and a reader that sizes its output buffer
+	   as a multiple of c and doubles it (4c, 8c, ...) owns a buffer between 2^32 bytes and the block size that has to grow once more */
+	if (kind == 1) { uint64_t x = 0x9E3779B97F4A7C15ULL; uint8_t *fp = raw + ent_off[0] + 16; for (size_t i = 0; i < (40u << 20); i += 8) { x ^= x << 13; x ^= x >> 7; x ^= x << 17; memcpy(fp + i, &x, 8); } }
+	/* compress */
+	uint8_t *cz = NULL; size_t cn = 0;
+	if (kind == 0) {
+		size_t cap = ZSTD_compressBound(raw_len); cz = malloc(cap);
+		if (!cz) { inconclusive("cannot allocate"); free(raw); return; }
+		cn = ZSTD_compress(cz, cap, raw, raw_len, 1);
+		if (ZSTD_isError(cn)) { inconclusive("zstd refuses %" PRIu64 " bytes: %s", raw_len, ZSTD_getErrorName(cn)); free(cz); free(raw); return; }
+	} else {
+		size_t cap = 256u << 20; cz = malloc(cap);
+		z_stream zs; memset(&zs, 0, sizeof zs);
+		if (!cz || deflateInit(&zs, 1) != Z_OK) { inconclusive("deflateInit"); free(cz); free(raw); return; }
+		uint64_t fed = 0; zs.next_out = cz; zs.avail_out = (uInt)cap;
+		int zr = Z_OK;
+		while (zr != Z_STREAM_END) {
+			if (zs.avail_in == 0 && fed < raw_len) { uint64_t chunk = raw_len - fed; if (chunk > (1u << 30)) chunk = 1u << 30; zs.next_in = raw + fed; zs.avail_in = (uInt)chunk; fed += chunk; }
+			zr = deflate(&zs, fed == raw_len ? Z_FINISH : Z_NO_FLUSH);
+			if (zr == Z_STREAM_ERROR || zs.avail_out == 0) { inconclusive("deflate: output buffer of 256 MiB too small or error"); deflateEnd(&zs); free(cz); free(raw); return; }
+		}
+		cn = cap - zs.avail_out; deflateEnd(&zs);
+	}
+	/* file: data block, index block (uncompressed), trailer */
+	char path[4096]; snprintf(path, sizeof path, "%s/c11-bigz-%ld.mtbl", a->workdir, c);
+	int fd = open(path, O_RDWR | O_CREAT | O_TRUNC, 0644);
+	uint8_t fr[16]; size_t fl = rd_varint_put(fr, cn); rd_put32(fr + fl, rd_crc32c(cz, cn)); fl += 4;
+	if (fd < 0 || pwrite(fd, fr, fl, 0) != (ssize_t)fl || pwrite(fd, cz, cn, fl) != (ssize_t)cn) { inconclusive("cannot write %s", path); if (fd >= 0) close(fd); free(cz); free(raw); return; }
+	uint64_t ioff = fl + cn;
+	uint8_t ib[64]; size_t ibn = 0; uint8_t v0[10]; size_t v0n = rd_varint_put(v0, 0);
+	uint8_t lastk[2] = {'k', (uint8_t)('a' + NE - 1)};
+	ibn += refenc_entry(ib + ibn, 0, lastk, 2, v0, v0n);
+	rd_put32(ib + ibn, 0); ibn += 4; rd_put32(ib + ibn, 1); ibn += 4;
+	size_t il = rd_varint_put(fr, ibn); rd_put32(fr + il, rd_crc32c(ib, ibn)); il += 4;
+	pwrite(fd, fr, il, ioff); pwrite(fd, ib, ibn, ioff + il);
+	uint64_t bv = 0; for (int i = 0; i < NE; i++) bv += VL[i];
+	uint64_t tf[9] = {ioff, 8192, kind == 0 ? MTBL_COMPRESSION_ZSTD : MTBL_COMPRESSION_ZLIB, (uint64_t)NE, 1, ioff, il + ibn, 2 * (uint64_t)NE, bv};
+	uint8_t t[512]; refenc_trailer(t, 2, tf);
+	pwrite(fd, t, 512, ioff + il + ibn);
+	close(fd);
+	free(cz); free(raw);
+	/* the real reader, in a child (an assertion in get_block is an observation) */
+	fflush(stdout);
+	pid_t pid = fork();
+	if (pid == 0) {
+		int nfd = open("/dev/null", O_WRONLY); dup2(nfd, 2);
+		struct mtbl_reader_options *ro = mtbl_reader_options_init();
+		mtbl_reader_options_set_verify_checksums(ro, true);
+		struct mtbl_reader *rd = mtbl_reader_init(path, ro);
+		if (!rd) _exit(3);
+		struct mtbl_iter *it = mtbl_source_iter(mtbl_reader_source(rd));
+		const uint8_t *k, *v; size_t lk, lv; int n = 0;
+		while (mtbl_iter_next(it, &k, &lk, &v, &lv) == mtbl_res_success) {
+			if (n >= NE || lk != 2 || k[0] != 'k' || k[1] != 'a' + n || lv != VL[n] || v[0] != 0x11 * (n + 1) || v[lv - 1] != 0xA0 + n || v[lv / 2] != 0) _exit(4);
+			n++;
+		}
+		if (n != NE) _exit(5);
+		mtbl_iter_destroy(&it);
+		uint8_t q[2] = {'k', (uint8_t)('a' + NE - 1)};
+		it = mtbl_source_get(mtbl_reader_source(rd), q, 2);
+		if (mtbl_iter_next(it, &k, &lk, &v, &lv) != mtbl_res_success || lv != VL[NE - 1] || v[lv - 1] != 0xA0 + NE - 1) _exit(6);
+		_exit(0);
+	}
+	int st; waitpid(pid, &st, 0);
+	if (WIFEXITED(st) && WEXITSTATUS(st) == 3) viol("C11/reader-rejects-well-formed-file", "reader NULL for a %s block of %" PRIu64 " uncompressed bytes", kind ? "zlib" : "zstd", raw_len);
+	else if (WIFEXITED(st) && WEXITSTATUS(st)) viol("C11/large-block-iteration-wrong", "%s block of %" PRIu64 " uncompressed bytes (%d entries): wrong content (step %d)", kind ? "zlib" : "zstd", raw_len, NE, WEXITSTATUS(st));
+	else if (!WIFEXITED(st)) viol("C11/abort-on-large-compressed-block", "reading a well-formed %s block of %" PRIu64 " uncompressed bytes (%zu compressed) stopped the process (status 0x%x)", kind ? "zlib" : "zstd", raw_len, cn, st);
+	statf(1, "c11.bigz.%s", kind ? "zlib_block_over_4GiB" : "zstd_block_over_2GiB");
+	if (kind == 1) { for (uint64_t sz = 4 * (uint64_t)cn; sz < raw_len; sz *= 2) if (sz > (1ULL << 32)) { STAT("c11.bigz.zlib_4c_doubling_has_a_step_between_2^32_and_block_size"); break; } }
+	STAT("c11.bigz.files");
+	if (want_sample()) sample("bigz: one %s data block, %d entries, %" PRIu64 " uncompressed bytes (%zu compressed), %d-bit restart array", kind ? "zlib" : "zstd", NE, raw_len, cn, rw * 8);
+	case_hash(raw_len + kind);
+	unlink(path);
+}
+
 static void case_selfcheck(const args_t *a, long c, rng_t *r)
 {
 	(void)c; (void)r;
@@ -312,6 +411,7 @@ int main(int argc, char **argv)
 	if (!strcmp(a.sub, "files")) f = case_files;
 	else if (!strcmp(a.sub, "big")) f = case_big;
 	else if (!strcmp(a.sub, "selfcheck")) f = case_selfcheck;
+	else if (!strcmp(a.sub, "bigz")) f = case_bigz;
 	else return 98;
 	return run_cases(&a, f);
 }
